@@ -165,7 +165,8 @@ func FindDispatch(p *Prog) *Dispatch {
 		bodies := caseBodyBlocks(d.Fn, pred, blk)
 		switch v := e.(type) {
 		case *ssa.Function:
-			d.Rows = append(d.Rows, Row{Pos: pos, Neg: neg, Fn: v, Bodies: bodies, Site: first})
+			// a method expression yields a thunk: the row's entry function is the method
+			d.Rows = append(d.Rows, Row{Pos: pos, Neg: neg, Fn: unwrapBound(v), Bodies: bodies, Site: first})
 		case *ssa.Const:
 			d.Default = true
 		case *ssa.Call:
@@ -188,7 +189,7 @@ func FindDispatch(p *Prog) *Dispatch {
 				switch rv := ret.Results[0].(type) {
 				case *ssa.Function:
 					ipos, ineg, _ := predsAt(nr, ret)
-					d.Rows = append(d.Rows, Row{Pos: append(append([]Pred{}, pos...), ipos...), Neg: append(append([]Pred{}, neg...), ineg...), Fn: rv, Bodies: bodies, Inner: true, Site: ret})
+					d.Rows = append(d.Rows, Row{Pos: append(append([]Pred{}, pos...), ipos...), Neg: append(append([]Pred{}, neg...), ineg...), Fn: unwrapBound(rv), Bodies: bodies, Inner: true, Site: ret})
 				case *ssa.Const:
 					d.Default = true
 				default:
